@@ -2,6 +2,6 @@ From Coq Require Import ZArith NArith QArith List.
 From NV Require Import Common.Outcome Common.Conv Dict.KeyEq Dict.KeyHash Dict.DictMap.
 Require Extraction.
 Require Import ExtrOcamlBasic.
-Extraction "model.ml" conv_anchor key_eq key_hash_real hm_slot step run zadd zeq from_pairs
+Extraction "model.ml" conv_anchor key_eq key_eq_hm key_hash_real hm_slot step run zadd zeq from_pairs
   uniqued set_of count_distinct frequencies classify group_all memo_calls
   bfind bset bremove bentries.
